@@ -170,4 +170,128 @@ theorem pacer_interval (s : Sender) (t pn : Int) (b : Nat) (r : Bool) (rest : Li
   · simp only [ha, if_false]
     omega
 
+
+/-! ### the allowance in terms of elapsed time -/
+
+theorem wrapI64_of_range (i : Int) (h0 : 0 ≤ i) (h1 : i < 2 ^ 63) : wrapI64 i = i := by
+  unfold wrapI64 u64OfI64 i64OfU64
+  have : i % 2 ^ 64 = i := Int.emod_eq_of_lt h0 (by omega)
+  rw [this]
+  have h2 : i.toNat < 2 ^ 63 := by omega
+  rw [if_pos h2]
+  omega
+
+theorem div_add_div_le (a b c : Nat) (hc : 0 < c) : a / c + b / c ≤ (a + b) / c := by
+  rw [Nat.le_div_iff_mul_le hc, Nat.add_mul]
+  have := Nat.div_mul_le_self a c
+  have := Nat.div_mul_le_self b c
+  omega
+
+/-- time of the last send of a history (or the given start) -/
+def lastSendTime : Int → List Op → Int
+  | T, [] => T
+  | T, op :: ops => match op with
+    | .sent t _ _ _ => lastSendTime t ops
+    | _ => lastSendTime T ops
+
+/-- send times are non-decreasing from `T` on (and no gap reaches 2^63 ns ≈ 292 years) -/
+def TimesMono : Int → List Op → Prop
+  | _, [] => True
+  | T, op :: ops => match op with
+    | .sent t _ _ _ => T ≤ t ∧ t - T < 2 ^ 63 ∧ TimesMono t ops
+    | _ => TimesMono T ops
+
+/-- the pacer's bandwidth is at most `W` at every send of the history -/
+def BwBounded (W : Nat) : Sender → List Op → Prop
+  | _, [] => True
+  | s, op :: ops => (match op with | .sent _ _ _ _ => s.bw ≤ W | _ => True) ∧ BwBounded W (s.step op).1 ops
+
+theorem lastSendTime_ge (ops : List Op) : ∀ T, TimesMono T ops → T ≤ lastSendTime T ops := by
+  induction ops with
+  | nil => intro T _; exact Int.le_refl _
+  | cons op ops ih =>
+    intro T h
+    cases op with
+    | sent t pn b r =>
+      simp only [TimesMono] at h
+      simp only [lastSendTime]
+      have := ih t h.2.2
+      omega
+    | acked pn b prior t => exact ih T h
+    | lost pn b prior => exact ih T h
+    | exitSS => exact ih T h
+    | setMDS m => exact ih T h
+    | rtt r => exact ih T h
+    | idle => exact ih T h
+
+theorem tokens_le (p : Pacer) (bw W : Nat) (t : Int) (hW : bw ≤ W) (h0 : p.lastSent ≤ t) (h1 : t - p.lastSent < 2 ^ 63) :
+    tokens p bw t ≤ W * (t - p.lastSent).toNat / nsPerSecond := by
+  unfold tokens
+  rw [wrapI64_of_range _ (by omega) h1]
+  simp only []
+  split
+  · exact Nat.div_le_div_right (Nat.mul_le_mul_right _ hW)
+  · exact Nat.zero_le _
+
+/-- with non-decreasing send times and bandwidth at most `W` at every send, the tokens granted over
+a history are at most `⌊W · elapsed / 10⁹⌋` -/
+theorem allowance_le_elapsed (W : Nat) (ops : List Op) : ∀ (s : Sender),
+    TimesMono s.pacer.lastSent ops → BwBounded W s ops →
+    allowance s ops ≤ W * (lastSendTime s.pacer.lastSent ops - s.pacer.lastSent).toNat / nsPerSecond := by
+  induction ops with
+  | nil => intro s _ _; simp [allowance]
+  | cons op ops ih =>
+    intro s hm hb
+    have hp := step_pacer s op
+    have hb' : BwBounded W (s.step op).1 ops := hb.2
+    cases op with
+    | sent t pn b r =>
+      simp only [] at hp
+      have hsp := (sentPacket_spec s.pacer s.bw t b).1
+      simp only [TimesMono] at hm
+      obtain ⟨h0, h1, hm'⟩ := hm
+      have hbw : s.bw ≤ W := hb.1
+      have hT : (s.step (.sent t pn b r)).1.pacer.lastSent = t := by rw [hp]; exact hsp
+      have hih := ih (s.step (.sent t pn b r)).1 (by rw [hT]; exact hm') hb'
+      rw [hT] at hih
+      have htk := tokens_le s.pacer s.bw W t hbw h0 h1
+      have hge := lastSendTime_ge ops t hm'
+      simp only [allowance, lastSendTime]
+      have hsum : (lastSendTime t ops - s.pacer.lastSent).toNat =
+          (t - s.pacer.lastSent).toNat + (lastSendTime t ops - t).toNat := by omega
+      rw [hsum, Nat.mul_add]
+      have := div_add_div_le (W * (t - s.pacer.lastSent).toNat) (W * (lastSendTime t ops - t).toNat) nsPerSecond (by decide)
+      omega
+    | acked pn b prior t =>
+      simp only [] at hp
+      have := ih (s.step (.acked pn b prior t)).1 (by rw [hp]; exact hm) hb'
+      rw [hp] at this
+      simpa [allowance, lastSendTime] using this
+    | lost pn b prior =>
+      simp only [] at hp
+      have := ih (s.step (.lost pn b prior)).1 (by rw [hp]; exact hm) hb'
+      rw [hp] at this
+      simpa [allowance, lastSendTime] using this
+    | exitSS =>
+      simp only [] at hp
+      have := ih (s.step .exitSS).1 (by rw [hp]; exact hm) hb'
+      rw [hp] at this
+      simpa [allowance, lastSendTime] using this
+    | setMDS m =>
+      simp only [] at hp
+      have hT : (s.step (.setMDS m)).1.pacer.lastSent = s.pacer.lastSent := by rw [hp]; split <;> rfl
+      have := ih (s.step (.setMDS m)).1 (by rw [hT]; exact hm) hb'
+      rw [hT] at this
+      simpa [allowance, lastSendTime] using this
+    | rtt r =>
+      simp only [] at hp
+      have := ih (s.step (.rtt r)).1 (by rw [hp]; exact hm) hb'
+      rw [hp] at this
+      simpa [allowance, lastSendTime] using this
+    | idle =>
+      simp only [] at hp
+      have := ih (s.step .idle).1 (by rw [hp]; exact hm) hb'
+      rw [hp] at this
+      simpa [allowance, lastSendTime] using this
+
 end Uquic.Proofs.Cong
